@@ -6,6 +6,7 @@ export GOFLAGS=-mod=mod GOPROXY=off GOSUMDB=off GOTOOLCHAIN=local
 mkdir -p .build .work evidence replays
 cp /repo/go.sum harness/go.sum
 (cd harness && go build -tags verif -o ../.build/harness .)
+(cd /repo && go build -o /verif/.build/statsd_exporter .)
 if [ -d extract ]; then
   cp /repo/go.sum extract/go.sum
   (cd extract && go build -o ../.build/extract . && ../.build/extract /repo > ../lean/SE/Gen/Facts.lean.new && \
